@@ -22,6 +22,7 @@ import (
 	"sort"
 	"strings"
 	"sync"
+	"testing"
 	"time"
 
 	"github.com/pingcap/kvproto/pkg/metapb"
@@ -205,12 +206,20 @@ func clMod(a, n int) int {
 // clWorld is the ground truth (what the TiKV side looks like); every event returns the
 // heartbeats the affected leaders send, in order.
 type clWorld struct {
-	stores int
-	next   uint64
-	live   []*clReg // sorted by start, contiguous
-	splits int
-	merges int
+	stores    int
+	next      uint64
+	live      []*clReg // sorted by start, contiguous
+	splits    int
+	merges    int
+	reportAll bool // known finding: never lose the source's conf changes before a merge
+	excluded  int
 }
+
+// Known finding: processRegionHeartbeat refreshes the store statistics of the stores of the
+// new region and of its previous version, but not of the regions it displaces. A displaced
+// region with a peer on a store that the displacing region does not use leaves that store's
+// counts stale. Trigger class: a merge whose source moved peers without PD hearing of it.
+const clKnownOverlapStores = "C07/displaced-region-stores-not-refreshed"
 
 func (w *clWorld) alloc() uint64 { w.next++; return w.next }
 
@@ -410,11 +419,16 @@ func (w *clWorld) apply(op ClOp, pref uint64) []*clReg {
 		// PD moves the source's peers onto the target's stores first; those conf changes of the
 		// source are not reported when B%2==1 (heartbeats lost), otherwise one by one
 		var out []*clReg
+		report := op.B%2 == 0
+		if !report && w.reportAll {
+			report = true
+			w.excluded++
+		}
 		for _, p := range t.peers {
 			if !r.hasStore(p.store) {
 				r.peers = append(r.peers, clPeer{id: w.alloc(), store: p.store})
 				r.conf++
-				if op.B%2 == 0 {
+				if report {
 					out = append(out, r.clone())
 				}
 			}
@@ -445,7 +459,7 @@ func (w *clWorld) apply(op ClOp, pref uint64) []*clReg {
 					r.peers = np
 					r.pending = clDrop(r.pending, p.id)
 					r.conf++
-					if op.B%2 == 0 {
+					if report {
 						out = append(out, r.clone())
 					}
 					removed = true
@@ -624,6 +638,7 @@ func runCluster(c ClCase) (vkit.Info, error) {
 	}
 	defer f.cancel()
 	w, initial := newClWorld(stores, c.Init)
+	w.reportAll = vkit.Known(clKnownOverlapStores)
 	if err := f.deliver(initial); err != nil {
 		return info, err
 	}
@@ -752,8 +767,42 @@ func runCluster(c ClCase) (vkit.Info, error) {
 	for _, k := range cl {
 		info.Class(k)
 	}
+	for i := 0; i < w.excluded; i++ {
+		info.Exclude(clKnownOverlapStores)
+	}
 	info.NonTrivial = races > 0 && raceChanged > 0 && w.splits+w.merges > 0
 	return info, nil
+}
+
+// TestFinding_displaced_region_stores_not_refreshed: region A ["","m") on stores 1,2,3 and
+// region B ["m","") on stores 1,2 are cached; A moves off store 3 without PD hearing of it and
+// is merged into B; B's heartbeat ["","") version 2 displaces A. Store 3 holds no region any
+// more, GetStore(3) still reports one.
+func TestFinding_displaced_region_stores_not_refreshed(t *testing.T) {
+	f, err := newClFixture(3)
+	if err != nil {
+		t.Fatal(err)
+	}
+	defer f.cancel()
+	a := &clReg{id: 10, start: "", end: "m", ver: 1, conf: 1, term: 6, sizeMB: 40,
+		peers: []clPeer{{11, 1, false}, {12, 2, false}, {13, 3, false}}, leader: 11}
+	b := &clReg{id: 20, start: "m", end: "", ver: 1, conf: 1, term: 6, sizeMB: 20,
+		peers: []clPeer{{21, 1, false}, {22, 2, false}}, leader: 21}
+	b2 := b.clone()
+	b2.start, b2.ver, b2.sizeMB = "", 3, 60
+	if err := f.deliver([]*clReg{a, b, b2}); err != nil {
+		vkit.Finding(t, clKnownOverlapStores, false, "heartbeats refused: "+err.Error())
+		return
+	}
+	s := f.rc.GetStore(3)
+	n := 0
+	for _, r := range f.rc.GetRegions() {
+		if r.GetStorePeer(3) != nil {
+			n++
+		}
+	}
+	vkit.Finding(t, clKnownOverlapStores, s.GetRegionCount() != n || s.GetRegionSize() != 0,
+		fmt.Sprintf("after region 20 [,) v3 on stores 1,2 displaced region 10 [,m) on stores 1,2,3: GetStore(3) reports %d regions of size %d, %d cached regions have a peer on store 3", s.GetRegionCount(), s.GetRegionSize(), n))
 }
 
 func clOpKinds(ops []ClOp) string {
